@@ -186,6 +186,10 @@ func parseTree(spec string) *Tree {
 type Atom struct {
 	T     string     `json:"t"`
 	Paths [][]string `json:"paths,omitempty"`
+	// Sibling: the option is DERIVED: a base option is designated to all but the last path, this option is the base
+	// plus the last path, and afterwards a sibling option is derived from the same base with the path Sibling
+	// (and thrown away). Option values are values: deriving a sibling must not change this option.
+	Sibling []string `json:"sibling,omitempty"`
 }
 
 func (a Atom) String() string {
@@ -195,6 +199,9 @@ func (a Atom) String() string {
 	ps := make([]string, len(a.Paths))
 	for i, p := range a.Paths {
 		ps[i] = strings.Join(p, "/")
+	}
+	if a.Sibling != nil {
+		return a.T + "@" + strings.Join(ps, ",") + "+sibling@" + strings.Join(a.Sibling, "/")
 	}
 	return a.T + "@" + strings.Join(ps, ",")
 }
@@ -311,6 +318,22 @@ func buildMenu(t *Tree, quick bool) *Menu {
 				m.Atoms = append(m.Atoms, Atom{T: ty, Paths: [][]string{acc[i], acc[j]}})
 				m.Atoms = append(m.Atoms, Atom{T: ty, Paths: [][]string{acc[j], acc[i]}})
 			}
+		}
+		// derived options: a base with three paths (a slice grown by append: spare capacity), this option = base +
+		// a fourth leaf, and a sibling = base + a fifth leaf derived afterwards (leaves only: a handler designated
+		// to a graph node may fire anywhere inside it)
+		var leaves [][]string
+		for _, p := range acc {
+			if !t.ByID[strings.Join(p, "/")].isGraph() {
+				leaves = append(leaves, p)
+			}
+		}
+		if len(leaves) >= 2 {
+			// the same from an undesignated base: this option = base + one leaf, sibling = base + another leaf
+			m.Atoms = append(m.Atoms, Atom{T: ty, Paths: [][]string{leaves[0]}, Sibling: leaves[1]})
+		}
+		if len(leaves) >= 5 {
+			m.Atoms = append(m.Atoms, Atom{T: ty, Paths: [][]string{leaves[0], leaves[1], leaves[2], leaves[3]}, Sibling: leaves[4]})
 		}
 		if len(acc) > 0 {
 			m.Atoms = append(m.Atoms, Atom{T: ty, Paths: [][]string{acc[0], {"zz"}}})
